@@ -135,7 +135,7 @@ def line_obs(tier):
     return o
 
 def obligations(tier):
-    obs = int_obs(6) + time_obs() + opt_obs(tier) + line_obs(tier)
+    obs = int_obs(12) + time_obs() + opt_obs(tier) + line_obs(tier)
     if tier != "quick":
         for o in list(obs):
             if o["name"].startswith(("int_N12", "timeval", "resolv_line_N", "hosts_line_N")) and "kf" not in o["name"]:
